@@ -54,3 +54,26 @@ theorem readParams_over (n : Nat) (h : 256 ≤ n) (s : JStr) (fuel : Nat) :
     cases fuel with
     | zero => simp only [readParams]; rw [if_neg (by decide)]
     | succ f => simp only [readParams, hr]; rw [if_neg (by decide)]
+
+/-! ## `get_simple_name` -/
+
+theorem simpleName_no_slash : ∀ (s : JStr), SLASH ∉ s → simpleName s = s := by
+  intro s h
+  cases s with
+  | nil => rfl
+  | cons x xs =>
+    have h1 : SLASH ∉ xs := fun m => h (List.mem_cons_of_mem _ m)
+    have h2 : x ≠ SLASH := fun e => h (by rw [e]; exact List.mem_cons_self)
+    simp only [simpleName, h1, if_false, h2]
+
+theorem simpleName_after_last : ∀ (p q : JStr), SLASH ∉ q → simpleName (p ++ SLASH :: q) = q := by
+  intro p
+  induction p with
+  | nil =>
+    intro q h
+    simp only [List.nil_append, simpleName, h, if_false, if_true]
+  | cons x xs ih =>
+    intro q h
+    have : SLASH ∈ xs ++ SLASH :: q := by simp
+    simp only [List.cons_append, simpleName, this, if_true]
+    exact ih q h
